@@ -15,6 +15,7 @@ import (
 	"github.com/bufbuild/protocompile/parser"
 	"github.com/bufbuild/protocompile/reporter"
 	"google.golang.org/protobuf/proto"
+	"google.golang.org/protobuf/reflect/protodesc"
 	"google.golang.org/protobuf/reflect/protoreflect"
 	"google.golang.org/protobuf/reflect/protoregistry"
 	"google.golang.org/protobuf/types/descriptorpb"
@@ -73,10 +74,12 @@ type optField struct {
 	Removed  int
 	Full     string
 	Extendee string // "" for ordinary fields
+	Utf8     bool   // string field whose UTF-8 validity the runtime enforces
 }
 
 type optMsg struct {
 	Full, Short, Parent string
+	MsgSet              bool
 	Fields              []optField
 }
 
@@ -85,6 +88,8 @@ type optEnum struct {
 	Closed bool
 	Names  []string
 	Nums   []int32
+	Intro  []int // feature_support.edition_introduced of the values (0 = unset)
+	Remov  []int
 }
 
 type optSchema struct {
@@ -92,6 +97,7 @@ type optSchema struct {
 	Msgs   []optMsg
 	Exts   []optField
 	OptIdx [9]int
+	Dyn    bool // see optVariant.Dyn
 	enumIx map[string]int
 	msgIx  map[string]int
 }
@@ -176,6 +182,7 @@ func optFieldOf(fd protoreflect.FieldDescriptor, s *optSchema) optField {
 	if fd.IsExtension() {
 		f.Extendee = string(fd.ContainingMessage().FullName())
 	}
+	f.Utf8 = fd.Kind() == protoreflect.StringKind && fd.Syntax() == protoreflect.Proto3
 	if fo, ok := fd.Options().(*descriptorpb.FieldOptions); ok && fo != nil {
 		for _, t := range fo.GetTargets() {
 			f.Targets = append(f.Targets, int(t))
@@ -272,11 +279,27 @@ func optDeriveSchema(files []protoreflect.FileDescriptor, find func(protoreflect
 		for i := 0; i < ed.Values().Len(); i++ {
 			e.Names = append(e.Names, string(ed.Values().Get(i).Name()))
 			e.Nums = append(e.Nums, int32(ed.Values().Get(i).Number()))
+			in, rm := 0, 0
+			if eo, ok := ed.Values().Get(i).Options().(*descriptorpb.EnumValueOptions); ok && eo != nil {
+				if fs := eo.GetFeatureSupport(); fs != nil {
+					if fs.EditionIntroduced != nil {
+						in = optEditionNum(fs.GetEditionIntroduced())
+					}
+					if fs.EditionRemoved != nil {
+						rm = optEditionNum(fs.GetEditionRemoved())
+					}
+				}
+			}
+			e.Intro = append(e.Intro, in)
+			e.Remov = append(e.Remov, rm)
 		}
 		s.Enums = append(s.Enums, e)
 	}
 	for _, md := range msgs {
 		m := optMsg{Full: string(md.FullName()), Short: string(md.Name()), Parent: string(md.FullName().Parent())}
+		if mo, ok := md.Options().(*descriptorpb.MessageOptions); ok && mo != nil {
+			m.MsgSet = mo.GetMessageSetWireFormat()
+		}
 		for i := 0; i < md.Fields().Len(); i++ {
 			m.Fields = append(m.Fields, optFieldOf(md.Fields().Get(i), s))
 		}
@@ -316,7 +339,7 @@ func (f *optField) tokens() []string {
 		tg = strings.Join(ts, ".")
 	}
 	return []string{f.Name, strconv.Itoa(f.Num), f.Kind, string(f.Card), optB(f.IsMap), optB(f.Presence), oo, tg,
-		strconv.Itoa(f.Intro), strconv.Itoa(f.Removed), f.Full, optDash(f.Extendee)}
+		strconv.Itoa(f.Intro), strconv.Itoa(f.Removed), f.Full, optDash(f.Extendee), optB(f.Utf8)}
 }
 
 func (s *optSchema) tokens() []string {
@@ -325,12 +348,12 @@ func (s *optSchema) tokens() []string {
 	for _, e := range s.Enums {
 		t = append(t, "E", e.Full, optB(e.Closed), strconv.Itoa(len(e.Names)))
 		for i := range e.Names {
-			t = append(t, e.Names[i], strconv.Itoa(int(e.Nums[i])))
+			t = append(t, e.Names[i], strconv.Itoa(int(e.Nums[i])), strconv.Itoa(e.Intro[i]), strconv.Itoa(e.Remov[i]))
 		}
 	}
 	t = append(t, strconv.Itoa(len(s.Msgs)))
 	for _, m := range s.Msgs {
-		t = append(t, "M", m.Full, m.Short, optDash(m.Parent), strconv.Itoa(len(m.Fields)))
+		t = append(t, "M", m.Full, m.Short, optDash(m.Parent), optB(m.MsgSet), strconv.Itoa(len(m.Fields)))
 		for i := range m.Fields {
 			t = append(t, m.Fields[i].tokens()...)
 		}
@@ -344,25 +367,80 @@ func (s *optSchema) tokens() []string {
 	for _, i := range s.OptIdx {
 		t = append(t, strconv.Itoa(i))
 	}
+	t = append(t, "D", optB(s.Dyn))
 	return t
 }
 
 // ---------------------------------------------------------------- state: compiled schema
 
 type optState struct {
-	deps   linker.Files
-	schema *optSchema
-	types  *dynamicpb.Types
-	files  *protoregistry.Files
+	override linker.File
+	variant  optVariant
+	deps     linker.Files
+	schema   *optSchema
+	types    *dynamicpb.Types
+	files    *protoregistry.Files
 }
 
-func optCompileSchema(sSrc, tSrc string) (*optState, error) {
+// optVariant: how the world around the schema files is set up.
+type optVariant struct {
+	// source of a replacement google/protobuf/any.proto ("" = the standard one)
+	AnySrc string
+	// descriptor.proto is handed to the compiler as a FileDescriptorProto, so its descriptors are built
+	// by the linker and differ from the generated Go ones: the interpreter's working message and the
+	// generated options struct then have different descriptors and cloneInto goes through
+	// Marshal/Unmarshal instead of proto.Merge
+	Dyn bool
+}
+
+func (v optVariant) token(tHex string) string {
+	t := tHex
+	if v.AnySrc != "" {
+		t += ",A" + Hex([]byte(v.AnySrc))
+	}
+	if v.Dyn {
+		t += ",D"
+	}
+	return t
+}
+
+func optParseVariant(tok string) (tSrc string, v optVariant) {
+	for i, p := range strings.Split(tok, ",") {
+		switch {
+		case i == 0:
+			if p != "-" {
+				tSrc = string(UnHex(p))
+			}
+		case p == "D":
+			v.Dyn = true
+		case strings.HasPrefix(p, "A"):
+			v.AnySrc = string(UnHex(p[1:]))
+		}
+	}
+	return tSrc, v
+}
+
+func optCompileSchema(sSrc, tSrc string, v optVariant) (*optState, error) {
 	srcs := map[string]string{"s.proto": sSrc}
 	if tSrc != "" {
 		srcs["t.proto"] = tSrc
 	}
-	c := protocompile.Compiler{Resolver: protocompile.WithStandardImports(&protocompile.SourceResolver{
-		Accessor: protocompile.SourceAccessorFromMap(srcs)})}
+	if v.AnySrc != "" {
+		srcs["google/protobuf/any.proto"] = v.AnySrc
+	}
+	var base protocompile.Resolver = &protocompile.SourceResolver{Accessor: protocompile.SourceAccessorFromMap(srcs)}
+	if v.Dyn {
+		base = protocompile.CompositeResolver{
+			protocompile.ResolverFunc(func(path string) (protocompile.SearchResult, error) {
+				if path == "google/protobuf/descriptor.proto" {
+					return protocompile.SearchResult{Proto: protodesc.ToFileDescriptorProto(descriptorpb.File_google_protobuf_descriptor_proto)}, nil
+				}
+				return protocompile.SearchResult{}, protoregistry.NotFound
+			}),
+			base,
+		}
+	}
+	c := protocompile.Compiler{Resolver: protocompile.WithStandardImports(base)}
 	names := []string{"s.proto"}
 	if tSrc != "" {
 		names = append(names, "t.proto")
@@ -371,7 +449,7 @@ func optCompileSchema(sSrc, tSrc string) (*optState, error) {
 	if err != nil {
 		return nil, err
 	}
-	st := &optState{deps: fs}
+	st := &optState{deps: fs, variant: v}
 	reg := &protoregistry.Files{}
 	var reg1 func(fd protoreflect.FileDescriptor)
 	reg1 = func(fd protoreflect.FileDescriptor) {
@@ -401,6 +479,7 @@ func optCompileSchema(sSrc, tSrc string) (*optState, error) {
 	if err != nil {
 		return nil, err
 	}
+	st.schema.Dyn = v.Dyn
 	return st, nil
 }
 
@@ -437,9 +516,11 @@ type optOp struct {
 	Syntax string // p2 p3 e23
 	Elem   string
 	Count  int // elements sharing the one options clause (extension ranges of one statement)
-	FKind  string
-	FLabel string
-	Stmts  []optStmt
+	// render without imports (only for ops that mention nothing of s.proto / t.proto)
+	noImports bool
+	FKind     string
+	FLabel    string
+	Stmts     []optStmt
 }
 
 func optIsIdent(s string) bool {
@@ -607,7 +688,7 @@ func optParseOp(op string, s *optSchema) (*optOp, bool) {
 		return nil, false
 	}
 	o := &optOp{Syntax: ts[1]}
-	if o.Syntax != "p2" && o.Syntax != "p3" && o.Syntax != "e23" {
+	if o.Syntax != "p2" && o.Syntax != "p3" && o.Syntax != "e23" && o.Syntax != "e23s" {
 		return nil, false
 	}
 	el := strings.Split(ts[2], ":")
@@ -809,7 +890,12 @@ func (o *optOp) render(s *optSchema, keep map[int]bool) string {
 	default:
 		sb.WriteString("edition = \"2023\";\n")
 	}
-	sb.WriteString("import \"s.proto\";\nimport \"t.proto\";\n")
+	if !o.noImports {
+		sb.WriteString("import \"s.proto\";\nimport \"t.proto\";\n")
+	}
+	if o.Syntax == "e23s" {
+		sb.WriteString("import \"google/protobuf/descriptor.proto\";\n")
+	}
 	var sts []string
 	for i := range o.Stmts {
 		if keep == nil || keep[i] {
@@ -837,7 +923,7 @@ func (o *optOp) render(s *optSchema, keep map[int]bool) string {
 			}
 			return ""
 		default:
-			if o.Syntax == "e23" {
+			if o.Syntax == "e23" || o.Syntax == "e23s" {
 				return ""
 			}
 			return "optional "
@@ -884,6 +970,10 @@ func (o *optOp) render(s *optSchema, keep map[int]bool) string {
 	case "method":
 		sb.WriteString("message U {}\nservice US {\n  rpc R(U) returns (U) {\n" + long("    ") + "  }\n}\n")
 	}
+	if o.Syntax == "e23s" {
+		// the file defines a feature and uses it (declared last: the element under test stays first)
+		sb.WriteString("message UF { int32 a = 1; }\nextend google.protobuf.FeatureSet { UF uf = 9990; }\n")
+	}
 	return sb.String()
 }
 
@@ -928,6 +1018,8 @@ var optErrTable = []struct{ sub, class string }{
 	{"was removed in", "validate"},
 	{"cannot be used from the same file", "validate"},
 	{"message set wire format", "msgset"},
+	{"contains invalid UTF-8", "utf8"},
+	{"message schema ", "anyschema"},
 }
 
 func optErrClass(err error) string {
@@ -1251,7 +1343,39 @@ func (st *optState) runMode(mode, src, elem string, count int, fkind string) (ou
 	if err != nil {
 		return "parseerr", nil
 	}
-	fd := res.FileDescriptorProto()
+	// pr is what gets linked and interpreted: the parse result itself, or a descriptor proto without AST
+	var pr parser.Result = res
+	switch mode {
+	case "proto", "proto-lenient", "proto-unlinked":
+		// the same file handed over as a FileDescriptorProto with uninterpreted options (no AST):
+		// the ...FromProto value paths and prototext for aggregate values
+		pr = parser.ResultWithoutAST(proto.Clone(res.FileDescriptorProto()).(*descriptorpb.FileDescriptorProto))
+	case "reinterp":
+		// interpret, serialize the whole file, read it back without any extension registry (custom
+		// options become unknown fields) and interpret the descriptor again: nothing may change
+		deps := st.deps
+		if d := st.descriptorFile(); d != nil {
+			deps = append(append(linker.Files{}, deps...), d)
+		}
+		lr, err := linker.Link(res, deps, nil, h)
+		if err != nil {
+			return "linkerr " + optErrClass(err), nil
+		}
+		if _, err := options.InterpretOptions(lr, h); err != nil {
+			return "err " + optErrClass(err), nil
+		}
+		b, err := proto.MarshalOptions{AllowPartial: true}.Marshal(res.FileDescriptorProto())
+		if err != nil {
+			return "marshal-error", nil
+		}
+		fd2 := &descriptorpb.FileDescriptorProto{}
+		if err := (proto.UnmarshalOptions{Resolver: (*protoregistry.Types)(nil), AllowPartial: true}).Unmarshal(b, fd2); err != nil {
+			return "unmarshal-error", nil
+		}
+		pr = parser.ResultWithoutAST(fd2)
+		h = reporter.NewHandler(nil)
+	}
+	fd := pr.FileDescriptorProto()
 	// per element: the original option objects and copies of them
 	var before, beforePtr [][]*descriptorpb.UninterpretedOption
 	snapshot := func() {
@@ -1265,20 +1389,30 @@ func (st *optState) runMode(mode, src, elem string, count int, fkind string) (ou
 			before = append(before, cs)
 		}
 	}
-	if mode == "unlinked" {
+	if mode == "unlinked" || mode == "proto-unlinked" {
 		snapshot()
-		_, err = options.InterpretUnlinkedOptions(res)
+		_, err = options.InterpretUnlinkedOptions(pr)
 	} else {
 		var lr linker.Result
-		lr, err = linker.Link(res, st.deps, nil, h)
+		deps := st.deps
+		if d := st.descriptorFile(); d != nil {
+			deps = append(append(linker.Files{}, deps...), d) // for files that import descriptor.proto themselves
+		}
+		if mode == "override" {
+			deps = nil // the file imports nothing; descriptor.proto comes in through the interpreter option
+		}
+		lr, err = linker.Link(pr, deps, nil, h)
 		if err != nil {
 			return "linkerr " + optErrClass(err), nil
 		}
 		snapshot()
-		if mode == "strict" {
-			_, err = options.InterpretOptions(lr, h)
-		} else {
+		switch mode {
+		case "lenient", "proto-lenient":
 			_, err = options.InterpretOptionsLenient(lr)
+		case "override":
+			_, err = options.InterpretOptions(lr, h, options.WithOverrideDescriptorProto(st.overrideFile()))
+		default:
+			_, err = options.InterpretOptions(lr, h)
 		}
 	}
 	if err != nil {
@@ -1327,7 +1461,7 @@ func (st *optState) runMode(mode, src, elem string, count int, fkind string) (ou
 	}
 	if optHasPseudo[elem] {
 		def := ref.def
-		if mode == "unlinked" && fkind != "" && (fkind[0] == 'e' || fkind[0] == 'm') && len(fkind) > 1 && fkind[1] >= '0' && fkind[1] <= '9' {
+		if (mode == "unlinked" || mode == "proto-unlinked") && fkind != "" && (fkind[0] == 'e' || fkind[0] == 'm') && len(fkind) > 1 && fkind[1] >= '0' && fkind[1] <= '9' {
 			fkind = "dbl" // an unlinked field with a named type is treated as TYPE_DOUBLE
 		}
 		if def != nil && (fkind == "flt" || fkind == "dbl") && *def != "inf" && *def != "-inf" && *def != "nan" {
@@ -1357,11 +1491,8 @@ func (e *optionsEngine) Exec(op string) string {
 		if len(ts) < 4 || ts[3] != "ABS" {
 			return "bad-op"
 		}
-		tsrc := ""
-		if ts[2] != "-" {
-			tsrc = string(UnHex(ts[2]))
-		}
-		st, err := optCompileSchema(string(UnHex(ts[1])), tsrc)
+		tsrc, variant := optParseVariant(ts[2])
+		st, err := optCompileSchema(string(UnHex(ts[1])), tsrc, variant)
 		if err != nil {
 			return "schema-error ~ " + Canon(err.Error())
 		}
@@ -1388,8 +1519,22 @@ func (e *optionsEngine) Exec(op string) string {
 	}
 	src := o.render(e.st.schema, nil)
 	s, _ := e.st.runMode("strict", src, o.Elem, o.Count, o.FKind)
+	// runs of the real interpreter that the model does not predict; the oracles compare them with S
+	extra := func() string {
+		p, _ := e.st.runMode("proto", src, o.Elem, o.Count, o.FKind)
+		r, ov := "-", "-"
+		if strings.HasPrefix(s, "ok ") {
+			r, _ = e.st.runMode("reinterp", src, o.Elem, o.Count, o.FKind)
+		}
+		if o.selfContained() {
+			o.noImports = true
+			ov, _ = e.st.runMode("override", o.render(e.st.schema, nil), o.Elem, o.Count, o.FKind)
+			o.noImports = false
+		}
+		return " ~ P=" + p + " R=" + r + " O=" + ov
+	}
 	if e.name == "options" {
-		return s
+		return s + extra()
 	}
 	l, _ := e.st.runMode("lenient", src, o.Elem, o.Count, o.FKind)
 	u, urest := e.st.runMode("unlinked", src, o.Elem, o.Count, o.FKind)
@@ -1404,7 +1549,74 @@ func (e *optionsEngine) Exec(op string) string {
 		}
 		c, _ = e.st.runMode("strict", o.render(e.st.schema, keep), o.Elem, o.Count, o.FKind)
 	}
-	return "S=" + s + " L=" + l + " U=" + u + " C=" + c
+	pl, _ := e.st.runMode("proto-lenient", src, o.Elem, o.Count, o.FKind)
+	pu, _ := e.st.runMode("proto-unlinked", src, o.Elem, o.Count, o.FKind)
+	return "S=" + s + " L=" + l + " U=" + u + " C=" + c + extra() + " PL=" + pl + " PU=" + pu
+}
+
+// selfContained: the rendered file needs nothing from s.proto / t.proto (no extension anywhere, scalar
+// field type), so it can be compiled without imports.
+func (o *optOp) selfContained() bool {
+	if o.Syntax == "e23s" || o.Elem == "extfield" || o.Elem == "nextfield" {
+		return false
+	}
+	if o.FKind != "" {
+		if _, ok := optKindProto[o.FKind]; !ok {
+			return false
+		}
+	}
+	var hasExt func(v *optVal) bool
+	hasExt = func(v *optVal) bool {
+		for i := range v.Fields {
+			if v.Fields[i].NK != 'n' || hasExt(&v.Fields[i].Val) {
+				return true
+			}
+		}
+		for i := range v.Elems {
+			if hasExt(&v.Elems[i]) {
+				return true
+			}
+		}
+		return false
+	}
+	for i := range o.Stmts {
+		for _, p := range o.Stmts[i].Parts {
+			if p.Ext {
+				return false
+			}
+		}
+		if hasExt(&o.Stmts[i].Val) {
+			return false
+		}
+	}
+	return true
+}
+
+// overrideFile is a descriptor.proto rebuilt from its FileDescriptorProto: same content as the generated
+// one but different descriptor objects, so cloneInto takes its Marshal/Unmarshal path.
+func (st *optState) overrideFile() linker.File {
+	if st.override == nil {
+		fd, err := protodesc.NewFile(protodesc.ToFileDescriptorProto(descriptorpb.File_google_protobuf_descriptor_proto), nil)
+		if err != nil {
+			panic(err)
+		}
+		f, err := linker.NewFile(fd, nil)
+		if err != nil {
+			panic(err)
+		}
+		st.override = f
+	}
+	return st.override
+}
+
+// descriptorFile is google/protobuf/descriptor.proto as the schema files see it.
+func (st *optState) descriptorFile() linker.File {
+	for _, f := range st.deps {
+		if d, ok := f.FindImportByPath("google/protobuf/descriptor.proto").(linker.File); ok {
+			return d
+		}
+	}
+	return nil
 }
 
 func (e *optionsEngine) Trivial(op, ans string) bool { return strings.HasPrefix(op, "schema ") }
@@ -1545,21 +1757,43 @@ func optGenSchema(r *Rand) (string, string) {
 		s.WriteString(fmt.Sprintf("  repeated E0 %s_re0 = %d;\n", p, n+29))
 		s.WriteString(fmt.Sprintf("  optional group %s_G = %d { optional int32 f1 = 1; optional string f2 = 2; }\n", strings.ToUpper(p[:1])+p[1:], n+30))
 		s.WriteString(fmt.Sprintf("  repeated t.T0 %s_rt0 = %d;\n", p, n+31))
+		s.WriteString(fmt.Sprintf("  optional MS %s_ms = %d;\n", p, n+32))
+		s.WriteString(fmt.Sprintf("  optional TG %s_tg = %d;\n", p, n+34))
+		s.WriteString(fmt.Sprintf("  repeated google.protobuf.Any %s_rany = %d;\n", p, n+33))
 		s.WriteString("}\n")
 	}
 	// a custom feature
-	s.WriteString("message Feat { optional E0 f1 = 1; optional int32 f2 = 2; optional M1 f3 = 3; }\n")
+	// feature lifetimes on fields and on enum values (the user files are edition 2023)
+	s.WriteString("enum FE { FE0 = 0; FE1 = 1 [feature_support = {edition_introduced: EDITION_2024}]; " +
+		"FE2 = 2 [feature_support = {edition_introduced: EDITION_PROTO2 edition_removed: EDITION_2023}]; " +
+		"FE3 = 3 [feature_support = {edition_introduced: EDITION_PROTO2 edition_deprecated: EDITION_2023 deprecation_warning: \"old\"}]; " +
+		"FE4 = 4 [feature_support = {edition_introduced: EDITION_2023 edition_removed: EDITION_2024}]; }\n")
+	s.WriteString("message Feat { optional E0 f1 = 1; optional int32 f2 = 2; optional M1 f3 = 3;\n" +
+		"  optional FE f4 = 4 [feature_support = {edition_introduced: EDITION_2023}];\n" +
+		"  optional int32 f5 = 5 [feature_support = {edition_introduced: EDITION_PROTO2 edition_removed: EDITION_2023}];\n" +
+		"  optional int32 f6 = 6 [feature_support = {edition_introduced: EDITION_PROTO2 edition_deprecated: EDITION_PROTO3 deprecation_warning: \"w\"}];\n" +
+		"  optional int32 f7 = 7 [feature_support = {edition_introduced: EDITION_2024}];\n" +
+		"  map<string, FE> f8 = 8; repeated FE f9 = 9; map<int32, M1> f10 = 10; optional t.E1 f11 = 11; repeated M2 f12 = 12;\n}\n")
+	// a field restricted to files, reachable directly, through a message, a list and a map
+	s.WriteString("message TG { optional int32 f1 = 1 [targets = TARGET_TYPE_FILE]; optional TG f2 = 2; map<string, TG> f3 = 3; repeated TG f4 = 4; }\n")
+	// message-set wire format (not supported by this build of the Go runtime: gate in checkFieldUsage)
+	s.WriteString("message MS { option message_set_wire_format = true; extensions 4 to max; }\n")
+	s.WriteString("message MSI { optional int32 f1 = 1; extend MS { optional MSI mse = 100; } }\n")
 	s.WriteString("extend google.protobuf.FeatureSet { optional Feat feat = 9995; optional int32 featn = 9996; }\n")
 	return s.String(), t.String()
 }
 
 func optSchemaOp(r *Rand) (string, *optState, error) {
+	return optSchemaOpV(r, optVariant{})
+}
+
+func optSchemaOpV(r *Rand, v optVariant) (string, *optState, error) {
 	ss, ts := optGenSchema(r)
-	st, err := optCompileSchema(ss, ts)
+	st, err := optCompileSchema(ss, ts, v)
 	if err != nil {
 		return "", nil, err
 	}
-	return "schema " + Hex([]byte(ss)) + " " + Hex([]byte(ts)) + " ABS " + strings.Join(st.schema.tokens(), " "), st, nil
+	return "schema " + Hex([]byte(ss)) + " " + v.token(Hex([]byte(ts))) + " ABS " + strings.Join(st.schema.tokens(), " "), st, nil
 }
 
 // ---------------------------------------------------------------- statement generator
@@ -1601,7 +1835,7 @@ var optBig = []uint64{0x43f0000000000000, 0x43f0000000000001, 0x4450000000000000
 var optIdents = []string{"true", "false", "t", "f", "True", "False", "TRUE", "inf", "nan", "Inf", "INF", "infinity", "Infinity",
 	"NaN", "NAN", "e0a", "e0b", "e0c", "e1a", "e1c", "nope", "IMPLICIT", "SPEED"}
 var optSignedIdents = []string{"inf", "nan", "Inf", "INF", "infinity", "Infinity", "NaN", "NAN", "iNfInItY"}
-var optStrings = []string{"-", "61", "6162", "00", "c3a9", "225c27", "f09f9880", "5b615d", "7472756520"}
+var optStrings = []string{"-", "61", "6162", "00", "c3a9", "225c27", "f09f9880", "5b615d", "7472756520", "ff", "c328"}
 
 func optHexBits(b uint64) string { return fmt.Sprintf("%016x", b) }
 
@@ -2262,6 +2496,83 @@ func optDirected() []string {
 		"opt p2 field:i32:o 1 2 n:default n:foo u:1",
 		"opt p2 field:i32:o 2 2 n:json_name n:x s:61 1 n:deprecated id:true",
 	}
+	any := func(host, name, inner string) string { return "a:" + host + "/" + name + " _ " + inner }
+	ga := "type.googleapis.com"
+	ops = append(ops,
+		// expanded Any: every error branch, in option values of type Any, repeated Any, and Any fields of literals
+		"opt p2 file 1 1 x:s.fi_any { "+any(ga, "s.M2", "{ n:f3 : id:true }")+" }",
+		"opt p2 file 1 1 x:s.fi_any { "+any("type.googleprod.com", "t.T0", "{ n:f3 : s:61 }")+" }",
+		"opt p2 file 1 1 x:s.fi_any { "+any("example.com", "s.M2", "{ }")+" }",
+		"opt p2 file 1 1 x:s.fi_any { "+any(ga, "s.Nope", "{ }")+" }",
+		"opt p2 file 1 1 x:s.fi_any { a:"+ga+"/s.M2 : u:1 }",
+		"opt p2 file 1 1 x:s.fi_any { a:"+ga+"/s.M2 : [ { } ] }",
+		"opt p2 file 1 1 x:s.fi_any { "+any(ga, "s.M2", "{ }")+" "+any(ga, "s.M2", "{ }")+" }",
+		"opt p2 file 1 1 x:s.fi_any { "+any(ga, "s.M2", "{ }")+" n:type_url : s:61 }",
+		"opt p2 file 1 1 x:s.fi_any { n:value : s:61 "+any(ga, "s.M2", "{ }")+" }",
+		"opt p2 file 1 1 x:s.fi_m2 { "+any(ga, "s.M2", "{ }")+" }",
+		"opt p2 file 1 1 x:s.fi_m2 { "+any(ga, "s.M2", "{ }")+" n:f3 : id:true }",
+		"opt p2 file 1 1 x:s.fi_any { "+any(ga, "s.M1", "{ n:f2 : s:61 }")+" }",
+		"opt p2 file 1 1 x:s.fi_any { "+any(ga, "s.M2", "{ n:nosuch : u:1 }")+" }",
+		"opt p2 file 1 1 x:s.fi_any { "+any(ga, "s.M2", "{ n:f3 : u:1 }")+" }",
+		"opt p2 file 2 1 x:s.fi_rany { "+any(ga, "s.M2", "{ n:f3 : id:true }")+" } 1 x:s.fi_rany { "+any(ga, "t.T0", "{ n:f1 : u:5 }")+" }",
+		"opt p2 file 1 1 x:s.fi_m0 { n:f30 : { "+any(ga, "s.M2", "{ n:f2 : [ f:3ff8000000000000 ] }")+" } n:f34 : [ { "+any(ga, "s.M2", "{ }")+" } { n:type_url : s:78 } ] }",
+		"opt p2 file 1 1 x:s.fi_m0 { n:f34 _ [ { "+any("bad.host", "s.M2", "{ }")+" } ] n:f1 : u:1 }",
+		"opt p2 message 2 1 x:s.me_any { "+any(ga, "s.M2", "{ n:f3 : u:1 }")+" } 1 n:deprecated id:true",
+		// the name uninterpreted_option itself
+		"opt p2 file 1 1 n:uninterpreted_option { }",
+		"opt p2 message 2 1 n:uninterpreted_option { } 1 n:deprecated id:true",
+		"opt p2 field:i32:o 2 2 n:uninterpreted_option n:name u:1 1 x:s.fl_i32 u:1",
+		// feature lifetimes: fields and enum values, singular / repeated / map, all against edition 2023
+		"opt e23 file 1 3 n:features x:s.feat n:f4 id:FE0",
+		"opt e23 file 1 3 n:features x:s.feat n:f4 id:FE1",
+		"opt e23 file 1 3 n:features x:s.feat n:f4 id:FE2",
+		"opt e23 file 1 3 n:features x:s.feat n:f4 id:FE3",
+		"opt e23 file 1 3 n:features x:s.feat n:f4 id:FE4",
+		"opt e23 file 1 3 n:features x:s.feat n:f5 u:1",
+		"opt e23 file 1 3 n:features x:s.feat n:f6 u:1",
+		"opt e23 file 1 3 n:features x:s.feat n:f7 u:1",
+		"opt e23 message 1 2 n:features x:s.feat { n:f8 : { n:key : s:61 n:value : id:FE0 } n:f8 : { n:key : s:62 n:value : id:FE3 } }",
+		"opt e23 message 1 2 n:features x:s.feat { n:f8 : { n:key : s:61 n:value : id:FE1 } }",
+		"opt e23 message 1 2 n:features x:s.feat { n:f9 : [ id:FE0 id:FE4 ] }",
+		"opt e23 message 1 2 n:features x:s.feat { n:f9 : [ id:FE0 id:FE2 ] }",
+		"opt e23 message 1 2 n:features x:s.feat { n:f9 : u:9 n:f11 : u:77 }",
+		"opt e23 message 1 2 n:features x:s.feat { n:f10 : { n:key : u:1 n:value : { n:f1 : u:1 } } n:f12 _ [ { n:f3 : id:true } ] }",
+		"opt e23 message 2 2 n:features x:s.feat { n:f10 : { n:key : u:1 } } 1 x:s.me_i32 u:1",
+		"opt e23 enumvalue 2 3 n:features x:s.feat n:f4 id:FE2 1 x:s.ev_i32 u:1",
+		"opt e23 field:i32:o 2 3 n:features x:s.feat n:f4 id:FE1 1 x:s.fl_i32 u:1",
+		// a feature defined in the file that uses it
+		"opt e23s file 1 3 n:features x:uf n:a u:1",
+		"opt e23s message 1 2 n:features x:uf { n:a : u:1 }",
+		"opt e23s message 1 1 n:features { x:uf _ { } }",
+		"opt e23s field:i32:o 2 3 n:features x:uf n:a u:1 1 x:s.fl_i32 u:1",
+		"opt e23s message 2 3 n:features x:s.feat n:f2 u:1 1 n:deprecated id:true",
+		// target types of fields deep inside a value (directly, in a message, a list, a map)
+		"opt p2 file 1 1 x:s.fi_tg { n:f1 : u:1 n:f2 : { n:f1 : u:2 } n:f3 : { n:key : s:61 n:value : { n:f1 : u:3 } } n:f4 : [ { n:f1 : u:4 } ] }",
+		"opt p2 message 1 1 x:s.me_tg { n:f1 : u:1 }",
+		"opt p2 message 1 1 x:s.me_tg { n:f2 : { n:f1 : u:2 } }",
+		"opt p2 message 1 1 x:s.me_tg { n:f3 : { n:key : s:61 n:value : { n:f1 : u:3 } } }",
+		"opt p2 message 1 1 x:s.me_tg { n:f4 : [ { } { n:f1 : u:4 } ] }",
+		"opt p2 message 1 1 x:s.me_tg { n:f4 : [ { } ] n:f3 : { n:key : s:61 } n:f2 : { } }",
+		"opt p2 enumvalue 1 3 x:s.ev_tg n:f2 n:f1 u:1",
+		"opt p2 message 1 1 x:s.me_any { a:type.googleapis.com/s.TG _ { n:f1 : u:1 } }",
+		"opt p2 file 1 1 x:s.fi_any { a:type.googleapis.com/s.TG _ { n:f1 : u:1 } }",
+		// message-set wire format is not supported by this build of the runtime
+		"opt p2 file 1 2 x:s.fi_ms x:s.MSI.mse { n:f1 : u:1 }",
+		"opt p2 file 1 1 x:s.fi_ms { x:s.MSI.mse _ { n:f1 : u:1 } }",
+		"opt p2 file 1 1 x:s.fi_ms { }",
+		"opt p2 message 2 1 x:s.me_ms { x:s.MSI.mse : { } } 1 n:deprecated id:true",
+		// strings that are not UTF-8: proto2 string (kept), proto3 string (the final conversion fails), bytes, Any
+		"opt p2 file 1 1 x:s.fi_str s:ff",
+		"opt p2 file 1 1 x:s.fi_byt s:ff",
+		"opt p2 file 1 2 x:s.fi_t0 n:f3 s:ff",
+		"opt p2 file 1 2 x:s.fi_t0 n:f4 s:ff",
+		"opt p2 file 1 1 x:s.fi_t0 { n:f12 : { n:key : s:c328 } }",
+		"opt p2 file 2 2 x:s.fi_t0 n:f15 s:e282 1 n:java_package s:ff",
+		"opt p2 message 3 1 n:deprecated id:true 2 x:s.me_t0 n:f3 s:ff 1 x:s.me_i32 u:1",
+		"opt p2 file 1 1 x:s.fi_any { "+any(ga, "t.T0", "{ n:f3 : s:ff }")+" }",
+		"opt p2 field:str:o 1 1 n:default s:ff",
+		"opt p3 field:str:o 1 1 n:json_name s:ff",
+	)
 	// features through an extension on every element kind (what InterpretUnlinkedOptions half-applies)
 	for _, k := range []string{"file", "message", "field:i32:o", "oneof", "extrange", "enum", "enumvalue", "service", "method", "extfield:i32:o"} {
 		ops = append(ops,
@@ -2418,6 +2729,45 @@ func (e *optionsEngine) Gen(r *Rand, tier string) [][]string {
 			}
 		}
 		chunk(ops)
+	}
+	// the same fixed schema in a world where descriptor.proto is linked from a descriptor proto (the
+	// working message is converted by Marshal/Unmarshal), and with six malformed google.protobuf.Any
+	{
+		dop, dst, err := optSchemaOpV(nil, optVariant{Dyn: true})
+		if err != nil {
+			panic("options: dyn variant does not compile: " + err.Error())
+		}
+		ops := append([]string{}, optDirected()...)
+		for i, o := range optElemFamily() {
+			if i%7 == 0 {
+				ops = append(ops, o)
+			}
+		}
+		g := &optGen{r: r, s: dst.schema}
+		for j := 0; j < 60; j++ {
+			kind := optElemKinds[r.Intn(len(optElemKinds))]
+			g.wrong = []int{0, 30, 120}[r.Intn(3)]
+			ops = append(ops, g.op(kind, optSyntaxFor(r, kind), 1+r.Intn(3), 65))
+		}
+		cases = append(cases, append([]string{dop}, ops...))
+		anyVariants := []string{
+			"bytes value = 2;", "repeated string type_url = 1; bytes value = 2;", "int32 type_url = 1; bytes value = 2;",
+			"string type_url = 1;", "string type_url = 1; repeated bytes value = 2;", "string type_url = 1; string value = 2;",
+		}
+		ga := "type.googleapis.com"
+		for _, body := range anyVariants {
+			aop, _, err := optSchemaOpV(nil, optVariant{AnySrc: "syntax = \"proto3\"; package google.protobuf; message Any { " + body + " }"})
+			if err != nil {
+				panic("options: any variant does not compile: " + err.Error())
+			}
+			cases = append(cases, []string{aop,
+				"opt p2 file 1 1 x:s.fi_any { a:" + ga + "/s.M2 _ { n:f3 : id:true } }",
+				"opt p2 file 1 1 x:s.fi_any { a:" + ga + "/s.M2 _ { } n:type_url : s:61 }",
+				"opt p2 file 1 1 x:s.fi_any { }",
+				"opt p2 message 2 1 x:s.me_rany { a:" + ga + "/t.T0 _ { } } 1 n:deprecated id:true",
+				"opt p2 file 1 1 x:s.fi_m0 { n:f30 : { a:" + ga + "/s.M2 _ { } } n:f1 : u:1 }",
+			})
+		}
 	}
 	// 2. random schemas x random statements
 	nSchemas, nOps := 6, 120
